@@ -51,7 +51,7 @@ class Namer:
 
 def gen_net(rng, n_inputs=(1, 5), n_gates=(1, 10), types=None, max_arity=4, constants=0.3,
             bbs=0, cyclic=False, name_style="plain", input_outputs=0.1, unconnected_pins=0.0,
-            name="top", min_outputs=1, all_sinks_outputs=False, parity_bias=0.0, bb_types=None):
+            name="top", min_outputs=1, all_sinks_outputs=False, parity_bias=0.0, bb_types=None, shuffle_order=0.3):
     """Generate a lint-clean net.  Returns the net dict."""
     types = list(types or ALL_GATES)
     nm = Namer(rng, name_style)
@@ -154,6 +154,12 @@ def gen_net(rng, n_inputs=(1, 5), n_gates=(1, 10), types=None, max_arity=4, cons
         n = rng.choice(pool)
         nodes[n][2] = True
         outs.append(n)
+    if shuffle_order and rng.random() < shuffle_order:
+        # node insertion order is part of a circuit's construction history: loads may have been created before
+        # their drivers (netlists in file order, add(..., fanout=...), relabel)
+        items = list(nodes.items())
+        rng.shuffle(items)
+        nodes = dict(items)
     net = {"name": name, "nodes": nodes, "bbs": bbd}
     if name_style == "auxlike":
         net = auxlike_rename(rng, net)
